@@ -72,6 +72,30 @@ fn run_case(case: &Case, ev: &Evidence) -> CaseResult {
         spec.add.push(w.new_party());
     }
     w.commit_round(creator, &spec)?.map_err(|e| setup_failure(P, "initial_commit", &e))?;
+    // A second group of X in the same storage, at unrelated (usually much higher) epochs and written to often:
+    // retention is per group, nothing that happens to this group may touch the epochs of the group under test.
+    let mut side: Option<VGroup> = None;
+    let advance_side = |w: &World, g: &mut VGroup| -> CaseResult {
+        let t = w.now();
+        guard(|| {
+            g.commit_builder().commit_time(t).build()?;
+            g.apply_pending_commit()?;
+            g.write_to_storage()
+        })
+        .map_err(|e| setup_failure(P, "side_group", &e))
+    };
+    if case.c(6) % 3 != 0 {
+        let t = w.now();
+        let mut g = {
+            let party = &w.parties[x];
+            guard(|| party.client.group_builder()?.with_now_time(t).build()).map_err(|e| setup_failure(P, "side_group_create", &e))?
+        };
+        for _ in 0..1 + case.c(7) % 9 {
+            advance_side(&w, &mut g)?;
+        }
+        ev.class("cases_with_a_second_group_in_the_same_store");
+        side = Some(g);
+    }
     let mut ret = Retention::default();
     let mut held: Vec<Held> = vec![];
     let mut delivered_ok = 0u64;
@@ -191,6 +215,9 @@ fn run_case(case: &Case, ev: &Evidence) -> CaseResult {
                 }
                 ret.write(retention);
                 classes.push("writes".into());
+                if let Some(g) = side.as_mut() {
+                    advance_side(&w, g)?;
+                }
             }
             3 => {
                 // a sender of held messages is removed
@@ -265,6 +292,9 @@ fn run_case(case: &Case, ev: &Evidence) -> CaseResult {
         deliver(&mut w, &ret, &h, &mut delivered_ok, &mut classes, &mut boundary)?;
     }
     // storage: exactly the modelled epochs are retrievable after a final write
+    if let Some(g) = side.as_mut() {
+        advance_side(&w, g)?;
+    }
     if let Err(e) = w.save(x) {
         return Err(setup_failure(P, "write_to_storage", &e));
     }
